@@ -225,3 +225,34 @@ Definition db_of_sx (s : sx) : option pdb :=
       end
   | _ => None
   end.
+
+(* ---- parse_enum_value ------------------------------------------------------------------------- *)
+(* number_re ^\w+$ -> int(value, 0); bitshift_re ^(\w+)\s*<<\s*(\w+)$ -> int(a,0) << int(b,0);
+   underscores inside numerals are out of model *)
+Definition parse_enum_value (v : str) : res Z :=
+  if negb (all_ascii v) then Raise OutOfModel [] else
+  if mem_char 95%N v then Raise OutOfModel [] else
+  match v with
+  | [] => Raise RuntimeError []
+  | _ =>
+      if forallb is_word v then
+        match int_base0 v with Some z => Ok z | None => Raise ValueError [] end
+      else
+        let a := take_while is_word v in
+        let r1 := drop_while is_space (drop_while is_word v) in
+        match a, r1 with
+        | _ :: _, 60%N :: 60%N :: r2 =>
+            let b := drop_while is_space r2 in
+            match b with
+            | _ :: _ =>
+                if forallb is_word b then
+                  match int_base0 a, int_base0 b with
+                  | Some x, Some y => Ok (Z.shiftl x y)
+                  | _, _ => Raise ValueError []
+                  end
+                else Raise RuntimeError []
+            | [] => Raise RuntimeError []
+            end
+        | _, _ => Raise RuntimeError []
+        end
+  end.
